@@ -272,3 +272,15 @@ package json
 //@   ensures [C10_qpm_hit] result >= 0 ==> pathEq(qs[result].SearchPath, path) && (forall k :: 0 <= k && k < result ==> !pathEq(qs[k].SearchPath, path))
 //@   ensures [C10_qpm_miss] result == -1 ==> (forall k :: 0 <= k && k < len(qs) ==> !pathEq(qs[k].SearchPath, path))
 //@   loop 1 invariant [C10_qpm_inv] forall k :: 0 <= k && k <= rangeindex ==> !pathEq(qs[k].SearchPath, path)
+
+// C10: the query tables are the statement's (checked on the concretely executed initialiser):
+// GeoJSON: top-level "type" is one of the nine RFC 7946 names; HAR: log.version, log.creator or
+// log.entries present; glTF: asset.version is "1.0" or "2.0"; plain JSON: no query.
+//@ spec hasVal(q, s) = exists v :: 0 <= v && v < len(q.SearchVals) && q.SearchVals[v] == s
+//@ spec path1(q, a) = len(q.SearchPath) == 1 && q.SearchPath[0] == a
+//@ spec path2(q, a, c) = len(q.SearchPath) == 2 && q.SearchPath[0] == a && q.SearchPath[1] == c
+//@ func json.init
+//@   ensures [C10_tbl_none] len(queries["json"]) == 0
+//@   ensures [C10_tbl_geo] len(queries["geo"]) == 1 && path1(queries["geo"][0], "type") && len(queries["geo"][0].SearchVals) == 9 && hasVal(queries["geo"][0], "\"Feature\"") && hasVal(queries["geo"][0], "\"FeatureCollection\"") && hasVal(queries["geo"][0], "\"Point\"") && hasVal(queries["geo"][0], "\"LineString\"") && hasVal(queries["geo"][0], "\"Polygon\"") && hasVal(queries["geo"][0], "\"MultiPoint\"") && hasVal(queries["geo"][0], "\"MultiLineString\"") && hasVal(queries["geo"][0], "\"MultiPolygon\"") && hasVal(queries["geo"][0], "\"GeometryCollection\"")
+//@   ensures [C10_tbl_har] len(queries["har"]) == 3 && path2(queries["har"][0], "log", "version") && path2(queries["har"][1], "log", "creator") && path2(queries["har"][2], "log", "entries") && len(queries["har"][0].SearchVals) == 0 && len(queries["har"][1].SearchVals) == 0 && len(queries["har"][2].SearchVals) == 0
+//@   ensures [C10_tbl_gltf] len(queries["gltf"]) == 1 && path2(queries["gltf"][0], "asset", "version") && len(queries["gltf"][0].SearchVals) == 2 && hasVal(queries["gltf"][0], "\"1.0\"") && hasVal(queries["gltf"][0], "\"2.0\"")
